@@ -19,6 +19,15 @@ func gen(g *vh.Gen) {
 		stream := smtpd.GenDialogue(g, c, pool, o)
 		g.Emit("smtp", append(c.Fields(), vh.H(stream))...)
 	}
+	// small message limits with bodies on both sides of them, with and without (truthful, lying) SIZE parameters: a
+	// transaction refused for its size adds nothing to any mailbox, one within the limit is stored whole
+	os := smtpd.Opts{Garbage: 0.03, MaxBody: 60, SizeParams: true, SmallLimit: true, Caps: true}
+	for i := 0; i < g.N(60, 3000); i++ {
+		c, pool := smtpd.GenCfg(g, os)
+		c.DA, c.DS = true, true
+		stream := smtpd.GenDialogue(g, c, pool, os)
+		g.Emit("smtp", append(c.Fields(), vh.H(stream))...)
+	}
 }
 
 // genRemoveRace: two sessions to the same recipients; while the second delivers, another client removes what the
